@@ -105,7 +105,9 @@ def run_c12(ctx):
                 "several host frames, with framer-/frame-/main-relative shares driving the templates' transitions; a case counts when "
                 "TLC accepted the whole recorded execution against the spec view in which every clone is an independent original")
     ctx.extra.update({"evaluations": n, "distinct_nontrivial": len(out.accepted), "programs": n, "clone_instances": nclones})
-    ctx.assume("rear / raze (run-time cloning) is not covered by this check")
+    # second half of the property: run-time cloning (rear / raze) at the level of the clone population
+    from . import rearraze
+    rearraze.run_part(ctx, "C12")
 
 
 PROPERTIES = {"C12": run_c12}
